@@ -65,6 +65,11 @@ struct C16 : Prop {
 				for (auto &p : b.points_board) if (r.chance(400)) { J o = J::obj(); o.set("op", "hl"); o.set("fn", "switch_point"); J s = J::arr(); s.push(p.id); s.push(p.aspects[0].id); o.set("s", s); pre.push(o); q(); }
 			}
 			if (r.chance(500)) for (int i = 0, n = (int) r.range(1, 4); i < n; i++) { J e = J::obj(); e.set("op", "emit"); e.set("node", J::arr()); e.set("type", (int) MSG_SYS_PONG); e.set("data", pc::jarr({i})); pre.push(e); q(); }
+			// the application resets the system while state is populated (aspect names, occupancy, train state), possibly followed by more activity
+			if (r.chance(250)) {
+				J ro = J::obj(); ro.set("op", "reset"); pre.push(ro); q();
+				for (auto &b : w.boards) if (b.present) for (auto &p : b.points_board) if (r.chance(300)) { J o = J::obj(); o.set("op", "hl"); o.set("fn", "switch_point"); J s = J::arr(); s.push(p.id); s.push(p.aspects.back().id); o.set("s", s); pre.push(o); q(); }
+			}
 			{ J g = J::obj(); g.set("op", "get"); g.set("fn", "state"); pre.push(g); }
 			ph.set("pre", pre);
 			J post = J::arr(); post.push("quiesce"); ph.set("post", post);
